@@ -786,11 +786,58 @@ def kfLine (t : Array String) : String :=
       | _, .int r => s!"{f} {r}"
       | _, _ => s!"{f} unexpected result {repr v}"
 
+/-! the getters that return arrays through out-parameters (`econf_getGroups`, `econf_getKeys`): the cells for the results are
+    one-word blocks; before the call the length holds 77 and the array pointer a sentinel (a pointer to the length cell) -/
+
+def getterFunctions : List String := ["getGroups", "getKeys"]
+
+open MiniC in
+def getterLine (t : Array String) : String :=
+  let f := t.getD 0 ""
+  let isG := f == "getGroups"
+  let spec := t.getD 1 "-"
+  let given := spec != "-"
+  let (m0, kf) : Mem × Nat := if given then addKf [] spec else ([], 0)
+  let kfArg : Val := if given then .ptr kf 0 else .null
+  let mode := if isG then t.getD 2 "n" else t.getD 3 "n"
+  let gtok := t.getD 2 "-"
+  let (m1, grp) : Mem × Val := if isG || gtok == "-" then (m0, .null) else (m0 ++ [strBlock (decD gtok)], .ptr m0.length 0)
+  let lenCell := m1.length
+  let arrCell := m1.length + 1
+  let m2 : Mem := m1 ++ [{ cells := [], slots := [.int 77] }, { cells := [], slots := [.ptr lenCell 0] }]
+  let fuel := spec.length + 16
+  let args : List Val := if isG then [kfArg, .ptr lenCell 0, if mode == "g" then .null else .ptr arrCell 0]
+    else [kfArg, grp, if mode == "l" then .null else .ptr lenCell 0, .ptr arrCell 0]
+  match runFn (if isG then "econf_getGroups" else "econf_getKeys") fuel m2 args with
+  | .error e => s!"{f} {e}"
+  | .ok (.int code, m) =>
+    let lenV := match m.loadSlot lenCell 0 with | .ok (.int k) => toString k | r => s!"unreadable({repr r})"
+    let arrV := match m.loadSlot arrCell 0 with | .ok v => v | .error _ => .undef
+    let pre := s!"{f} E{code} {lenV}"
+    if arrV == .ptr lenCell 0 then pre ++ " same"
+    else if code != 0 then pre ++ " changed"
+    else match arrV with
+      | .null => pre ++ " null"
+      | .ptr b 0 =>
+        match m.block b with
+        | .error e => pre ++ s!" unreadable({repr e})"
+        | .ok blk =>
+          let sl := blk.slots
+          let cnt : Nat := if mode == "l" then (sl.findIdx? (· == .null)).getD sl.length
+            else match m.loadSlot lenCell 0 with | .ok (.int k) => k.toNat | _ => 0
+          let term := if sl.getD cnt .undef == .null then "" else " NOT-TERMINATED"
+          -- the array has exactly one word more than strings: a longer one would hide an over-read of the caller
+          let tight := if sl.length == cnt + 1 then "" else s!" ARRAY-OF-{sl.length}-WORDS"
+          pre ++ " g" ++ ",".intercalate ((sl.take cnt).map (optStr m)) ++ term ++ tight
+      | v => pre ++ s!" notanarray({repr v})"
+  | .ok (v, _) => s!"{f} returned {repr v}"
+
 open MiniC in
 def leafLine (t : Array String) : String :=
   let f := t.getD 0 ""
   if kfFunctions.contains f then kfLine t else
   if mergeFunctions.contains f then mergeLine t else
+  if getterFunctions.contains f then getterLine t else
   let a := decD (t.getD 1 "h")
   let b := decD (t.getD 2 "h")
   let c := decD (t.getD 3 "h")
